@@ -64,7 +64,10 @@ func RunC09(tier string, args []string) int {
 	evals, nontrivial := 0, 0
 	outcomes := fw.NewDistinct()
 	var samples []string
-	run := func(disk bool, fault string, arm func(w *CW) func(), probeListed bool) {
+	// idA is the repository identifier of the CRL the fault is injected into (set by run before arm is called)
+	idA := ""
+	extraDoc := world.SimpleCRL(c.p.CA, 1, 987654).DER()
+	run := func(disk bool, fault string, arm func(w *CW) func(), probeListed bool, extras bool) {
 		evals++
 		var v Verdict
 		hit := false
@@ -78,6 +81,32 @@ func RunC09(tier string, args []string) int {
 			w.Net.Serve(urlA, "v1", c.vers[1])
 			if got := w.Lookup(listed, c.chain(listed)); got.String() != "REVOKED" {
 				panic("setup: listed probe not revoked: " + got.String() + got.Err)
+			}
+			idA = w.Repo().VerifEntries()[0].ID
+			if extras {
+				// further healthy CRLs (which do not list the probes) in the same repository, at least one whose identifier
+				// sorts before and one whose identifier sorts after the faulty one: whatever order the lookup visits the
+				// CRLs in, the failure of one of them must not be forgotten
+				before, after := false, false
+				for i := 0; i < 24 && !(before && after); i++ {
+					u := fmt.Sprintf("http://crl.test/extra%d.crl", i)
+					w.Net.Serve(u, "extra", extraDoc)
+					l := world.Leaf(c.p.CA, bi(int64(700000+i)), []string{u}, nil)
+					if got := w.Lookup(l, c.chain(l)); got.String() != "OK" {
+						panic("setup: extra CRL: " + got.String() + got.Err)
+					}
+					for _, e := range w.Repo().VerifEntries() {
+						if e.ID < idA {
+							before = true
+						}
+						if e.ID > idA {
+							after = true
+						}
+					}
+				}
+				if !(before && after) {
+					panic("setup: could not place healthy CRLs on both sides of the faulty one")
+				}
 			}
 			c09Hit = false
 			disarm := arm(w)
@@ -96,6 +125,9 @@ func RunC09(tier string, args []string) int {
 		which := "unlisted"
 		if probeListed {
 			which = "listed"
+		}
+		if extras {
+			fault += "+healthy-crls-around"
 		}
 		outcomes.Add(fmt.Sprintf("%s %s => %s", stripAt(fault), which, v))
 		if !hit {
@@ -118,68 +150,72 @@ func RunC09(tier string, args []string) int {
 			}
 		}
 	}
-	for _, disk := range []bool{false, true} {
-		disk := disk
-		// the stored record of the listed certificate
-		for _, listedProbe := range []bool{true, false} {
-			if disk {
-				run(disk, "handle-closed", func(w *CW) func() {
-					for _, e := range w.Repo().VerifEntries() {
-						e.Store.Close()
-					}
-					c09Hit = true
-					return func() {}
-				}, listedProbe)
-				run(disk, "get-io-error", func(w *CW) func() {
-					vsched.EffectHook = func(kind, arg string) error {
-						if kind == "ldb.get" {
-							c09Hit = true
-							return errors.New("injected: input/output error")
-						}
-						return nil
-					}
-					return func() { vsched.EffectHook = nil }
-				}, listedProbe)
-			}
-		}
-		// record corruptions (only the listed certificate has a record)
-		var rec []byte
-		seqWorld(func() {
-			w := NewCW(CWOpt{Disk: disk, SigMode: config.SignatureValidationModeVerify})
-			defer os.RemoveAll(w.Dir)
-			w.Provision()
-			vsched.Drain()
-			w.Net.Serve(urlA, "v1", c.vers[1])
-			w.Lookup(listed, c.chain(listed))
-			vleveldb.ValueHook = func(path string, key, value []byte) []byte { rec = value; return value }
-			if !disk {
-				rec = c09MemRecord(w, c)
-			} else {
-				w.Lookup(listed, c.chain(listed))
-			}
-			vleveldb.ValueHook = nil
-			w.Chk.Cleanup()
-		})
-		if len(rec) == 0 {
-			fmt.Fprintln(os.Stderr, "harness error: could not capture the stored record")
-			return 2
-		}
-		for name, bad := range c09Corruptions(rec) {
-			name, bad := name, bad
-			run(disk, "record:"+name, func(w *CW) func() {
+	for _, extras := range []bool{false, true} {
+		for _, disk := range []bool{false, true} {
+			disk, extras := disk, extras
+			// the stored record of the listed certificate
+			for _, listedProbe := range []bool{true, false} {
 				if disk {
-					vleveldb.ValueHook = func(path string, key, value []byte) []byte {
-						if string(value) == string(rec) {
-							c09Hit = true
-							return bad
+					run(disk, "handle-closed", func(w *CW) func() {
+						for _, e := range w.Repo().VerifEntries() {
+							if e.ID == idA {
+								e.Store.Close()
+								c09Hit = true
+							}
 						}
-						return value
-					}
-					return func() { vleveldb.ValueHook = nil }
+						return func() {}
+					}, listedProbe, extras)
+					run(disk, "get-io-error", func(w *CW) func() {
+						vsched.EffectHook = func(kind, arg string) error {
+							if kind == "ldb.get" && strings.Contains(arg, idA) {
+								c09Hit = true
+								return errors.New("injected: input/output error")
+							}
+							return nil
+						}
+						return func() { vsched.EffectHook = nil }
+					}, listedProbe, extras)
 				}
-				c09Hit = c09MemCorrupt(w, rec, bad)
-				return func() {}
-			}, true)
+			}
+			// record corruptions (only the listed certificate has a record)
+			var rec []byte
+			seqWorld(func() {
+				w := NewCW(CWOpt{Disk: disk, SigMode: config.SignatureValidationModeVerify})
+				defer os.RemoveAll(w.Dir)
+				w.Provision()
+				vsched.Drain()
+				w.Net.Serve(urlA, "v1", c.vers[1])
+				w.Lookup(listed, c.chain(listed))
+				vleveldb.ValueHook = func(path string, key, value []byte) []byte { rec = value; return value }
+				if !disk {
+					rec = c09MemRecord(w, c)
+				} else {
+					w.Lookup(listed, c.chain(listed))
+				}
+				vleveldb.ValueHook = nil
+				w.Chk.Cleanup()
+			})
+			if len(rec) == 0 {
+				fmt.Fprintln(os.Stderr, "harness error: could not capture the stored record")
+				return 2
+			}
+			for name, bad := range c09Corruptions(rec) {
+				name, bad := name, bad
+				run(disk, "record:"+name, func(w *CW) func() {
+					if disk {
+						vleveldb.ValueHook = func(path string, key, value []byte) []byte {
+							if string(value) == string(rec) {
+								c09Hit = true
+								return bad
+							}
+							return value
+						}
+						return func() { vleveldb.ValueHook = nil }
+					}
+					c09Hit = c09MemCorrupt(w, rec, bad)
+					return func() {}
+				}, true, extras)
+			}
 		}
 	}
 	// schedule scenarios
